@@ -60,14 +60,15 @@ Definition collect_spec (ops : list op) (x : src) : list value := chain_spec ops
 Definition reduce_spec (g : rd) (init : value) (ops : list op) (x : src) : value :=
   fold_left (apply_rd g) (chain_spec ops (elements x)) init.
 
-(* index-based iteration over a vector that changes between rounds: [vs i] is the vector as it is when
-   round i asks for its element; the loop visits vs 0 [0], vs 1 [1], .. and stops at the first i with
-   i >= length (vs i) *)
-Fixpoint indexed_visits (vs : nat -> list value) (i : nat) (rounds : nat) : list value :=
+(* index-based iteration over a vector that changes between rounds ([mut i xs] = the vector after the body
+   of round i ran): the loop reads index i of the CURRENT vector while i < its CURRENT length *)
+Fixpoint indexed_visits (mut : nat -> list value -> list value) (i : nat) (xs : list value) (rounds : nat)
+  : list value :=
   match rounds with
   | O => []
-  | S k => match nth_error (vs i) i with
-           | Some v => v :: indexed_visits vs (S i) k
-           | None => []
-           end
+  | S r =>
+    match nth_error xs i with
+    | Some v => if is_stop v then [] else v :: indexed_visits mut (S i) (mut i xs) r
+    | None => []
+    end
   end.
